@@ -17,7 +17,6 @@ from .py2lean2 import translate_or_stub, source_ast, Untranslatable
 
 GEN_V = os.path.join("MenpoModel", "Generated", "C02SrcV.lean")
 TARGETS_V = ["MenpoModel.Generated.C02SrcV", "MenpoModel.GenProps.C02SrcV"]
-N_OBLIGATIONS_V = 27
 TRANSLATED_V = ["Landmarkable.has_landmarks", "Landmarkable.landmarks", "LandmarkManager.n_groups",
                 "Shape._transform_inplace", "Shape._transform_self_inplace", "PointCloud._transform_self_inplace",
                 "LandmarkManager._transform_inplace", "Transformable._transform_inplace", "Transformable._transform",
@@ -26,7 +25,6 @@ TRANSLATED_V = ["Landmarkable.has_landmarks", "Landmarkable.landmarks", "Landmar
                 "Affine.translation_component"]
 GEN_H = os.path.join("MenpoModel", "Generated", "C02SrcH.lean")
 TARGETS_H = ["MenpoModel.Generated.C02SrcH", "MenpoModel.GenProps.C02SrcH"]
-N_OBLIGATIONS_H = 12
 
 MONAD = {}          # the defaults of py2lean2x: Except, forLoopE, reduceE, tryExcept
 
